@@ -189,6 +189,9 @@ func c19Run(c *vk.Ctx) {
 			return
 		}
 	}
+	if !c12Forced(c) {
+		return
+	}
 	c.Eval("rig|shared-listeners|acquire-close-accept-read")
 	// 5. association table: many clients, expiry against lookups (and TCP traffic alongside)
 	catcher := &panicCatcher{}
